@@ -93,14 +93,34 @@ def sibling_any_order(g):
     return doc, [("2000", "vpinsrq", ["%" + r for r in ops]), ("2006", "ret", [])], "sibling-any-order-operand"
 
 
+def and_in_any_order(g):
+    """`$and_any_order[$and[A, B], C]`: the sequence stays together and in its written order (A B C, C A B only); the other
+    four arrangements of the three are near misses.  Also with `$or` / a macro-like one-element `$and` as the inner group."""
+    import itertools
+    if g.chance(0.5):
+        a, b, c = g.r.sample(["mov", "add", "nop", "push", "pop", "xor", "sub"], 3)
+        inner = {"$and": [a, b]}
+        kids = [inner, c] if g.chance(0.5) else [c, inner]
+        order = list(g.pick(list(itertools.permutations([a, b, c]))))
+        doc = {"pattern": ["ret", {"$and_any_order": kids}, "leave"]}
+        insts = [("3000", "ret", [])] + [("%x" % (0x3001 + i), mn, ["%rax"]) for i, mn in enumerate(order)] + [("3009", "leave", [])]
+        return doc, insts, "and-in-any-order-inst"
+    x, y, z = g.r.sample(["xmm0", "xmm1", "xmm2", "rax", "rbx"], 3)
+    inner = {"$and": [x, y]}
+    kids = [inner, z] if g.chance(0.5) else [z, inner]
+    order = list(g.pick(list(itertools.permutations([x, y, z]))))
+    doc = {"pattern": [{"vpaddd": [{"$and_any_order": kids}]}]}
+    return doc, [("3000", "vpaddd", ["%" + r for r in order]), ("3005", "ret", [])], "and-in-any-order-operand"
+
+
 def run(ctx, factor):
     ctx.report.rule = ("random nestings (depth <= 3) of $or/$and/$and_any_order at instruction level, operand "
                        "level and inside $deref fields; listings realise one alternative / one ordering, then one "
                        "perturbation; verdict and all-matches texts vs the specification; plus the or-split "
                        "metamorphic check on the implementation; non-trivial = reached the specification comparison")
     rep = ctx.report
-    for it in range(ctx.budget(60, 2500) * factor):
-        doc, insts, tag = (sibling_any_order(ctx.g) if it % 6 in (0, 1) else
+    for it in range(ctx.budget(72, 3000) * factor):
+        doc, insts, tag = (sibling_any_order(ctx.g) if it % 6 in (0, 1) else and_in_any_order(ctx.g) if it % 6 == 2 else
                            prefix_alternatives(ctx.g) if it % 3 else nested_any_order(ctx.g))
         o = patdiff.observe(ctx, doc, insts, modes=("bool", "all", "first"))
         usable = patdiff.correspondence(ctx, o)
